@@ -15,7 +15,7 @@ ID = "C09"
 MODULE = "DaliVerif.Props.C09"
 EXES = ["m_memseq"]
 GEN = True
-THEOREMS = ["readRaw_spec", "readRaw_absent", "readRaw_faults", "readAllLoop_spec", "readAll_restores",
+THEOREMS = ["readRaw_spec", "readRaw_absent", "readRaw_faults", "readAllLoop_spec", "readAll_restores", "readAll_spec_unlatched", "fromList_spec",
             "readAll_spec", "tables_ok"]
 TRUSTED = [
     "hand-written model Model/MemSeq.lean of dali/memory/location.py (tied by this lock-step correspondence)",
